@@ -297,6 +297,25 @@ def run_cases(chk, tier):
                 shutil.rmtree(path, ignore_errors=True)
                 if k == 0:
                     chk.sample(dict(kind=kind, elements=els[:3], npartitions=npart), cap=7)
+        # a frame that has answered spatial questions, then its geometry column is replaced in place by other coordinates
+        # (D31, recorded as a known finding: the partition extents cached on the object describe the old coordinates)
+        for kind in ("point",):
+            n = 12
+            old_pts = [[i, i] for i in range(n)]
+            new_pts = [[100 + i, i] for i in range(n)]
+            d_ = dd.from_pandas(GeoDataFrame({"shape": geo.make_array("point", old_pts, "float64"), "v": list(range(n))}), npartitions=3)
+            o_ = dd.from_pandas(GeoDataFrame({"shape": geo.make_array("point", new_pts, "float64"), "v": list(range(n))}), npartitions=3)
+            rep = dict(api="DaskGeoDataFrame", kind=kind, elements=old_pts, assigned=new_pts, provenance="ddf['shape'] = other['shape'] after a spatial query")
+            try:
+                d_.cx[0:3, 0:3].compute()
+                d_["shape"] = o_["shape"]
+                got = sorted(int(x) for x in d_.cx[100:103, 0:3].compute().index)
+                tb = [f(x) for x in d_.geometry.total_bounds]
+                if got != [0, 1, 2, 3] or tb != [100, 0, 111, 11]:
+                    chk.violation("dask/in-place-column-assignment-keeps-stale-partition-bounds", dict(rep, cx=got, expected=[0, 1, 2, 3], total_bounds=tb))
+            except Exception as e:  # noqa: BLE001
+                chk.violation("dask/in-place-column-assignment-keeps-stale-partition-bounds", dict(rep, error=repr(e)[:200]))
+            chk.count("in-place-assignment")
         # more than ten partitions through parquet (partition labels "10", "11" sort before "2" as text)
         for kind in ("point", "line") if tier == "quick" else geo.KINDS:
             n = 26
